@@ -41,7 +41,13 @@ var initDenyAtlas = []string{
 	"ariga.io/atlas/cmd/atlas/internal/migrate/ent",
 }
 
+// initAllowExtra: packages enabled per run (-initallow).
+var initAllowExtra = map[string]bool{}
+
 func initAllowed(path string) bool {
+	if initAllowExtra[path] {
+		return true
+	}
 	if strings.HasPrefix(path, "ariga.io/atlas") {
 		for _, d := range initDenyAtlas {
 			if path == d || strings.HasPrefix(path, d+"/") {
